@@ -10,9 +10,12 @@ let hex_of_key k = hex_of_bytes k
 let parse_lock s =
   if s = "-" then None else
   match String.split_on_char ',' s with
-  | [st; p; k; v] ->
+  | st :: p :: k :: v :: ext ->
     let kind = (match k with "put" -> LPut | "del" -> LDel | "pess" -> LPess | _ -> failwith ("kind " ^ k)) in
-    Some { l_start = n_of_hex st; l_primary = key_of p; l_kind = kind; l_val = key_of v }
+    let (a, mc, secs) = (match ext with
+      | [a; mc; secs] -> (a = "1", n_of_hex mc, if secs = "." then [] else List.map key_of (String.split_on_char '+' secs))
+      | _ -> (false, N0, [])) in
+    Some { l_start = n_of_hex st; l_primary = key_of p; l_kind = kind; l_val = key_of v; l_async = a; l_min_commit = mc; l_secs = secs }
   | _ -> failwith ("lock " ^ s)
 let parse_val v = if v = "D" then None else Some (bytes_of_hex (let r = String.sub v 1 (String.length v - 1) in if r = "" then "-" else r))
 let parse_writes s =
@@ -28,7 +31,9 @@ let parse_store s = if s = "." then [] else List.map parse_rec (split_on ';' s)
 let show_val v = match v with None -> "D" | Some b -> "V" ^ (if b = [] then "" else hex_of_bytes b)
 let show_lock l = match l with None -> "-" | Some l ->
   String.concat "," [hex_of_n l.l_start; hex_of_key l.l_primary;
-    (match l.l_kind with LPut -> "put" | LDel -> "del" | LPess -> "pess"); hex_of_key l.l_val]
+    (match l.l_kind with LPut -> "put" | LDel -> "del" | LPess -> "pess"); hex_of_key l.l_val;
+    (if l.l_async then "1" else "0"); hex_of_n l.l_min_commit;
+    (if l.l_secs = [] then "." else String.concat "+" (List.map hex_of_key l.l_secs))]
 let show_writes ws = if ws = [] then "-" else
   String.concat "/" (List.map (fun w -> String.concat "," [hex_of_n w.w_start; hex_of_n w.w_commit; show_val w.w_val]) ws)
 let show_rec r = String.concat "|" [hex_of_key r.k_key; show_lock r.k_lock; show_writes r.k_writes]
@@ -81,6 +86,19 @@ let answer line =
   | ["vis"; id; stale; cached; ts] ->
     id ^ "\t" ^ (match check_visibility (stale = "1") (n_of_hex cached) (n_of_hex ts) with
                  | VisOk -> "ok" | VisAbortedByGC -> "gc" | VisPDTimeout -> "pdtimeout")
+  | ["addkeys"; id; mc0; answers] ->
+    (* answers: L<mc>+<mc>... | M<commit> separated by ';' in delivery order *)
+    let parse a = if a.[0] = 'M' then RMissing (n_of_hex (String.sub a 1 (String.length a - 1)))
+      else RLocked (List.map n_of_hex (List.filter (fun x -> x <> "") (String.split_on_char '+' (String.sub a 1 (String.length a - 1))))) in
+    id ^ "\t" ^ (match check_all_secondaries (n_of_hex mc0) (List.map parse (split_on ';' answers)) with
+                 | Some c -> "ok\t" ^ hex_of_n c | None -> "error")
+  | ["outcomes"; id; st] ->
+    (* for every lock: key@start=outcome of its transaction (committed_at at its primary; N = rolled back) *)
+    let st = parse_store st in
+    id ^ "\t" ^ String.concat "," (List.concat_map (fun r -> match r.k_lock with
+      | Some l -> [hex_of_key r.k_key ^ "@" ^ hex_of_n l.l_start ^ "=" ^ (match committed_at st l.l_primary l.l_start with Some c -> hex_of_n c | None -> "N")]
+      | None -> []) st)
+  | ["pok"; id; st] -> id ^ "\t" ^ (if primaries_okb (parse_store st) then "1" else "0")
   | ["wf"; id; sp; st] -> id ^ "\t" ^ (if wf_storeb (parse_store st) then "1" else "0")
   | id :: _ -> id ^ "\tunknown-op"
   | [] -> "?"
